@@ -16,6 +16,7 @@ import (
 	"strconv"
 	"time"
 
+	"github.com/nelhage/taktician/ai"
 	"github.com/nelhage/taktician/playtak"
 	"github.com/nelhage/taktician/playtak/bot"
 	"github.com/nelhage/taktician/tak"
@@ -37,6 +38,12 @@ type VerifCompose struct {
 	Parked chan struct{}
 	// LastPanic: what the real GetMove panicked with (set before Left(_, true))
 	LastPanic string
+	// the `level` command (work package botcompose2): Built counts how often HandleTell / HandleChat replaced f.ai
+	// during this game (the real engine it built is kept in LastBuilt and replaced by the stub again), SearchGen is
+	// the build of the f.ai object the search in progress was called on
+	Built     int
+	LastBuilt *ai.MinimaxAI
+	SearchGen int
 
 	v *VerifGlue
 }
@@ -81,10 +88,37 @@ func (c *VerifCompose) Bot() bot.Bot {
 	return c
 }
 
-type verifComposeSpy struct{ c *VerifCompose }
+type verifComposeSpy struct {
+	c   *VerifCompose
+	gen int
+}
 
 func (s verifComposeSpy) GetMove(ctx context.Context, p *tak.Position) tak.Move {
+	s.c.SearchGen = s.gen
 	return s.c.Search(ctx, p)
+}
+
+// restub: when the real code has just replaced f.ai ("starting right now"), keep what it built and put a stub of the
+// next build in its place
+func (c *VerifCompose) restub(old ai.TakPlayer) {
+	if c.F == nil || c.F.ai == old {
+		return
+	}
+	c.Built++
+	c.LastBuilt, _ = c.F.ai.(*ai.MinimaxAI)
+	c.F.ai = verifComposeSpy{c, c.Built}
+}
+
+// VerifLevel: f.level, how often f.ai was rebuilt, the Depth of the engine built last (-1: none)
+func (c *VerifCompose) VerifLevel() (level, built, depth int) {
+	if c.F == nil {
+		return -1, 0, -1
+	}
+	depth = -1
+	if c.LastBuilt != nil {
+		depth = c.LastBuilt.Cfg.Depth
+	}
+	return c.F.level, c.Built, depth
 }
 
 func (c *VerifCompose) NewGame(g *bot.Game) {
@@ -92,11 +126,11 @@ func (c *VerifCompose) NewGame(g *bot.Game) {
 	c.v.G = g
 	if c.F != nil {
 		c.F.NewGame(g)
-		c.F.ai = verifComposeSpy{c}
+		c.F.ai = verifComposeSpy{c, 0}
 		verifGlueEngines.Store(c.F.check, c.v)
 	} else {
 		c.T.NewGame(g)
-		c.T.ai = verifComposeSpy{c}
+		c.T.ai = verifComposeSpy{c, 0}
 	}
 }
 
@@ -118,7 +152,9 @@ func (c *VerifCompose) AcceptUndo() bool {
 
 func (c *VerifCompose) HandleChat(room, who, msg string) {
 	if c.F != nil {
+		old := c.F.ai
 		c.F.HandleChat(room, who, msg)
+		c.restub(old)
 	} else {
 		c.T.HandleChat(room, who, msg)
 	}
@@ -126,7 +162,9 @@ func (c *VerifCompose) HandleChat(room, who, msg string) {
 
 func (c *VerifCompose) HandleTell(who, msg string) {
 	if c.F != nil {
+		old := c.F.ai
 		c.F.HandleTell(who, msg)
+		c.restub(old)
 	} else {
 		c.T.HandleTell(who, msg)
 	}
